@@ -155,7 +155,7 @@ BINDINGS = {
         ('INSERT OR IGNORE', 'null'),
     ],
     ('lexicon_dependencies', '<row produced when>'): [
-        ('INSERT', 'not (not (isinstance(lexid, var:int)))', 'over Lexicon|LexiconExtension.requires?=[]', 'over Lexicon|LexiconExtension.requires?=[]'),
+        ('INSERT', 'isinstance(lexid, var:int)', 'over Lexicon|LexiconExtension.requires?=[]'),
     ],
     ('lexicon_dependencies', 'dependent_rowid'): [
         ('INSERT', 'lexid'),
@@ -173,7 +173,7 @@ BINDINGS = {
         ('INSERT', 'Dependency.version'),
     ],
     ('lexicon_extensions', '<row produced when>'): [
-        ('INSERT', 'Lexicon|LexiconExtension.extends?', 'not (not (isinstance(lexid, var:int)))'),
+        ('INSERT', 'Lexicon|LexiconExtension.extends?', 'isinstance(lexid, var:int)'),
     ],
     ('lexicon_extensions', 'base_id'): [
         ('INSERT', 'LexiconExtension.extends.id'),
@@ -298,7 +298,7 @@ BINDINGS = {
         ('INSERT', 'senses', 'Sense|Synset.id', 'lid(Sense|Synset.id)'),
     ],
     ('sense_relations', '<row produced when>'): [
-        ('INSERT', "over [[const:'sense_relations', var:SENSE_QUERY, []], [const:'sense_synset_relations', var:SYNSET_QUERY, []]]", 'over _batch([])', 'over []'),
+        ('INSERT',),
     ],
     ('sense_relations', 'lexicon_rowid'): [
         ('INSERT', 'lexid'),
@@ -319,7 +319,7 @@ BINDINGS = {
         ('INSERT', 'relation_types', 'Relation.relType'),
     ],
     ('sense_synset_relations', '<row produced when>'): [
-        ('INSERT', "over [[const:'sense_relations', var:SENSE_QUERY, []], [const:'sense_synset_relations', var:SYNSET_QUERY, []]]", 'over _batch([])', 'over []'),
+        ('INSERT',),
     ],
     ('sense_synset_relations', 'lexicon_rowid'): [
         ('INSERT', 'lexid'),
